@@ -15,6 +15,7 @@ FUNCTIONS = [
     "rdflib.plugins.serializers.hext.HextuplesSerializer.__new__ / __init__ / serialize / _hex_line / _iri_or_bn / _context_str",
     "rdflib.plugins.parsers.hext.HextuplesParser.parse / _parse_hextuple",
     "rdflib.serializer.Serializer.__init__",
+    "rdflib.plugins.parsers.trix.TriXHandler (startElementNS / endElementNS / characters / get_bnode / reset)",
 ]
 STUBS = ["the names URIRef, BNode, Literal, IdentifiedNode of both hext modules are bound to recorder classes (symbolic text; a blank node's "
          "n3() is '_:' + text), Graph / Dataset / ConjunctiveGraph to recording stand-ins (contexts(), default_context, get_context(), add(), "
@@ -38,7 +39,13 @@ RecBNode.n3 = _n3
 class HBNode(RecBNode):
     """BNode(value=...) as the HexTuples parser calls it"""
 
+    fresh = 0
+
     def __init__(self, value=None, *a, **kw):
+        if value is None:
+            # BNode() without a value: a fresh node
+            HBNode.fresh += 1
+            value = "\x00fresh-node-%d" % HBNode.fresh
         RecBNode.__init__(self, value)
 
 
@@ -294,7 +301,185 @@ def k_hext(desc, F, *args):
     return _patched(run)
 
 
-BODIES = {"k-hext": k_hext}
+# ---- TriX reader: the SAX handler driven directly with the events of a TriX document ---------------------------------------------
+class _ListMap:
+    """label -> node map with linear search (a real dict would hash, i.e. realise, the symbolic label)"""
+
+    def __init__(self):
+        self.items = []
+
+    def __contains__(self, k):
+        for a, _ in self.items:
+            if a == k:
+                return True
+        return False
+
+    def __getitem__(self, k):
+        for a, b in self.items:
+            if a == k:
+                return b
+        raise KeyError(k)
+
+    def __setitem__(self, k, v):
+        self.items.append((k, v))
+
+
+class _Loc:
+    def getSystemId(self):
+        return "urn:doc"
+
+    def getLineNumber(self):
+        return 1
+
+    def getColumnNumber(self):
+        return 1
+
+
+class TrixGraph:
+    """stands for rdflib.graph.Graph inside parsers/trix.py: Graph(store=..., identifier=...) is a view on the store's graph of that
+    name; without an identifier a new graph with a fresh name"""
+    fresh = 0
+
+    def __init__(self, store=None, identifier=None, **kw):
+        self.store = store
+        if identifier is None:
+            TrixGraph.fresh += 1
+            identifier = HBNode("\x00fresh%d" % TrixGraph.fresh)
+        self.identifier = identifier
+
+    def add(self, t):
+        s, p, o = t
+        self.store.adds.append((self.identifier, (s, p, o)))
+        return self
+
+
+class _TrixStore:
+    def __init__(self):
+        self.adds = []
+
+
+def k_trix(desc, F, *args):
+    """the events of a TriX document with 1-2 graphs (name element <uri>, <id> or none; one triple each) through the real TriXHandler:
+    every triple is added to the graph its <graph> element names; an unnamed graph is a graph of its own"""
+    import rdflib.plugins.parsers.trix as tx
+    from xml.sax.xmlreader import AttributesNSImpl
+    NS = str(tx.TRIXNS)
+    XML = str(tx.XMLNS)
+    saved = (tx.URIRef, tx.BNode, tx.Literal, tx.Graph)
+    tx.URIRef, tx.BNode, tx.Literal, tx.Graph = RecURI, HBNode, RecLit, TrixGraph
+    try:
+        store = _TrixStore()
+        h = tx.TriXHandler(store)
+        h.setDocumentLocator(_Loc())
+        h.bnode = _ListMap()
+        none = AttributesNSImpl({}, {})
+
+        def el(name, text=None, attrs=none):
+            h.startElementNS((NS, name), name, attrs)
+            if text is not None:
+                h.characters(text)
+            h.endElementNS((NS, name), name)
+
+        want = []
+        i = 0
+        h.startDocument()
+        h.startElementNS((NS, "TriX"), "TriX", none)
+        for gi, (gkind, okind) in enumerate(desc["graphs"]):
+            h.startElementNS((NS, "graph"), "graph", none)
+            gtext = "u" + args[i] if gkind == "uri" else "n" + args[i]
+            stext, otext, aux = "u" + args[i + 1], args[i + 2], args[i + 3]
+            # IRIs and blank node labels contain no white space (the reader strips the text of <uri> and <id>): visible ASCII here
+            for part in (args[i], args[i + 1]) + ((otext,) if okind in ("uri", "id") else ()):
+                for c in part:
+                    if not ("!" <= c <= "~"):
+                        return None
+            i += 4
+            if gkind == "uri":
+                el("uri", gtext)
+                gname = RecURI(gtext)
+            elif gkind == "id":
+                el("id", gtext)
+                gname = HBNode(gtext)
+            else:
+                gname = None
+            h.startElementNS((NS, "triple"), "triple", none)
+            el("uri", stext)
+            el("uri", "urn:p")
+            if okind == "uri":
+                el("uri", "u" + otext)
+                o = RecURI("u" + otext)
+            elif okind == "id":
+                el("id", "n" + otext)
+                o = HBNode("n" + otext)
+            elif okind == "plain":
+                el("plainLiteral", otext)
+                o = RecLit(otext)
+            elif okind == "lang":
+                el("plainLiteral", otext, AttributesNSImpl({(XML, "lang"): "e" + aux}, {(XML, "lang"): "xml:lang"}))
+                o = RecLit(otext, lang="e" + aux)
+            else:
+                el("typedLiteral", otext, AttributesNSImpl({(None, "datatype"): "d" + aux}, {(None, "datatype"): "datatype"}))
+                o = RecLit(otext, datatype=RecURI("d" + aux))
+            h.endElementNS((NS, "triple"), "triple")
+            h.endElementNS((NS, "graph"), "graph")
+            want.append((gi, gname, (RecURI(stext), RecURI("urn:p"), o)))
+        h.endElementNS((NS, "TriX"), "TriX")
+        h.endDocument()
+        got = store.adds
+        if len(got) != len(want):
+            return "the TriX reader adds %d statements for %d triple elements" % (len(got), len(want))
+        anon = []
+        bmap = []   # document label -> node the reader made of it: any consistent one-to-one renaming is fine
+
+        def bnode_ok(label_term, node):
+            if not (isinstance(node, RecTerm) and node.kind == "bnode"):
+                return False
+            for lab, nd in bmap:
+                same_label = _same_id(lab, label_term)
+                same_node = _same_id(nd, node)
+                if same_label != same_node:
+                    return False
+            bmap.append((label_term, node))
+            return True
+        for (gi, gname, (s, p, o)), (ident, t) in zip(want, got):
+            if not (s.same(t[0]) and p.same(t[1])):
+                return "the TriX reader changes a subject or predicate"
+            to = t[2]
+            if o.kind == "literal":
+                if not (isinstance(to, RecTerm) and to.kind == "literal" and str(to.text) == str(o.text)):
+                    return "the TriX reader changes a literal's lexical form"
+                if (o.language is None) != (to.language is None) or (o.language is not None and not (str(o.language) == str(to.language))):
+                    return "the TriX reader changes a literal's language tag"
+                if (o.datatype is None) != (to.datatype is None) or (o.datatype is not None and not (str(o.datatype) == str(to.datatype))):
+                    return "the TriX reader changes a literal's datatype"
+            elif o.kind == "bnode":
+                if not bnode_ok(o, to):
+                    return "the TriX reader does not map blank node labels one-to-one"
+            elif not o.same(to):
+                return "the TriX reader changes an object"
+            if gname is None:
+                # a graph of its own: not one of the named graphs of this document, not another unnamed graph
+                for (gj, gn2, _) in want:
+                    if gn2 is not None and gn2.kind == "uri" and _same_id(ident, gn2):
+                        return "the triple of an unnamed TriX graph lands in a named graph"
+                for lab, nd in bmap:
+                    if _same_id(nd, ident):
+                        return "the triple of an unnamed TriX graph lands in a named graph"
+                for a in anon:
+                    if _same_id(a, ident):
+                        return "two unnamed TriX graphs are merged"
+                anon.append(ident)
+            elif gname.kind == "bnode":
+                if not bnode_ok(gname, ident):
+                    return "a TriX triple lands in another graph than the one its <graph> element names"
+            elif not _same_id(ident, gname):
+                return "a TriX triple lands in another graph than the one its <graph> element names"
+        return None
+    finally:
+        tx.URIRef, tx.BNode, tx.Literal, tx.Graph = saved
+
+
+BODIES = {"k-hext": k_hext, "k-trix": k_trix}
 
 SHAPES = {
     "uri-uri-default": [("uri", "uri", "default")],
@@ -326,6 +511,22 @@ def obligations(tier, seed):
                 pre.append("len(s%d) <= %d" % (4 * qi + j, m))
         obs.append(dict(oid="K/hext/%s" % name, family="k-hext", desc={"quads": [list(q) for q in quads]}, sig=sig, pre=pre,
                         budget=300 if tier == "quick" else 1500))
+    # TriX reader: 1-2 <graph> elements by shape (name element uri / id / none; object kind), contents symbolic
+    trix = [[("uri", "uri")], [("id", "plain")], [("none", "lang")], [("uri", "typed")], [("uri", "id"), ("uri", "id")], [("uri", "plain"), ("none", "plain")],
+            [("none", "uri"), ("none", "uri")], [("id", "uri"), ("none", "id")], [("none", "plain"), ("uri", "plain")], [("id", "typed"), ("id", "lang")]]
+    for gs in trix:
+        sig = [("s%d" % i, "s") for i in range(4 * len(gs))]
+        m = 1 if (tier == "quick" or len(gs) > 1) else 2
+        pre = []
+        for gi, (gkind, okind) in enumerate(gs):
+            b = 4 * gi
+            # graph name, subject, object, language / datatype: unused strings are empty; with two graphs the subject's symbolic part is empty too
+            pre.append("len(s%d) <= %d" % (b, m) if gkind != "none" else "len(s%d) == 0" % b)
+            pre.append("len(s%d) <= %d" % (b + 1, m) if len(gs) == 1 else "len(s%d) == 0" % (b + 1))
+            pre.append("len(s%d) <= %d" % (b + 2, m))
+            pre.append("len(s%d) <= %d" % (b + 3, m) if okind in ("lang", "typed") else "len(s%d) == 0" % (b + 3))
+        obs.append(dict(oid="K/trix/%s" % "+".join("%s-%s" % g for g in gs), family="k-trix", desc={"graphs": [list(g) for g in gs]}, sig=sig,
+                        pre=pre, budget=300 if tier == "quick" else 1200))
     return obs
 
 
@@ -334,7 +535,10 @@ def bounds(tier):
                       "literal; graph default / IRI-named / blank-node-named; the same triple in two graphs; a blank node shared by two "
                       "graphs); every term content is one concrete first character followed by a symbolic string of length <= %d (blank node "
                       "labels <= %d; two-quad shapes: <= %d; literals: the whole lexical form symbolic)" % ((2, 3, 1) if tier == "quick" else (3, 4, 2)),
-            "outside": "N-Quads, TriG, TriX, JSON-LD, RDF Patch (text scanners), the JSON text of HexTuples, skolemize=True, plain Graph "
+            "k-trix": "the TriX reader's SAX handler driven with the events of a document of 1-2 <graph> elements (name element uri / id / none, one "
+                      "triple each, object IRI / blank node / plain / language / typed literal), all names and contents symbolic strings of length <= 1-2: "
+                      "every triple is added to the graph its <graph> element names, unnamed graphs are graphs of their own",
+            "outside": "N-Quads, TriG, JSON-LD, RDF Patch, the TriX writer and XML text (text scanners), the JSON text of HexTuples, skolemize=True, plain Graph "
                        "as source or sink, more than two quads"}
 
 
